@@ -62,7 +62,8 @@ Renderings(G, V, SP, EP) ==
                            \o [i \in DOMAIN G.events |->
                                  TEvent("Dialogue", RowOf(G.events[i].cols, p) \o <<0, 0, 0>>, G.events[i].s, G.events[i].e, G.events[i].lines)]
                            : p \in EP}
-      noise == {<<>>} \cup (IF V.noise THEN {<<TBlank, TSection("unknown"), TJunk>>} ELSE {})
+      \* an unknown section is ignored as a whole - also its lines that look like comments
+      noise == {<<>>} \cup (IF V.noise THEN {<<TBlank, TSection("unknown"), TJunk>>, <<TBlank, TSection("unknown"), TNote(3), TJunk>>} ELSE {})
   IN  {[eol |-> eol, bom |-> bom, plus |-> G.plus, radix |-> rx, nl |-> nl, star |-> st, toks |-> head \o n \o sb \o eb] :
          eol \in V.eols, bom \in V.boms, rx \in V.radix, nl \in V.nls, st \in V.stars, n \in noise, sb \in styleBlocks, eb \in eventBlocks}
 
